@@ -394,3 +394,23 @@ def labels(prog: dict) -> list[str]:
         labs.append("shared_root")
     labs.append(f"nf{len(funcs)}")
     return labs
+
+
+# ------------------------------------------------------------------------------------------------
+# an in-process call log that survives serialisation of the tracers: pipefunc serialises functions by value
+# (PipeFunc.__getstate__, shared caches, deepcopy); the log a tracer closes over must not be forked by that, so it
+# pickles to a reference to itself
+_LOGS: dict = {}
+
+
+def _log_lookup(key):
+    return _LOGS[key]
+
+
+class SharedLog(list):
+    def __reduce__(self):
+        _LOGS[id(self)] = self
+        return (_log_lookup, (id(self),))
+
+    def release(self) -> None:
+        _LOGS.pop(id(self), None)
